@@ -238,10 +238,22 @@ def run(ctx):
         so = [c for c in g.calls() if c.path.endswith("Command::stdout")]
         se = [c for c in g.calls() if c.path.endswith("Command::stderr")]
         piped = [c for c in g.calls() if c.path.endswith("Stdio::piped")]
-        asw = cond_switches(g, lambda e: W.field_of(e, CRB, "async_stderr"), ebg)
-        ac = [c for c in g.calls() if c.path.endswith("StderrReader::async") or c.path.endswith("StderrReader::r#async")]
-        sy = g.calls_to("grep_cli::process::StderrReader::sync")
-        if so and se and len(piped) >= 2 and asw and ac and sy and not guarded(g, [ac[0].bb], asw, True) and not guarded(g, [sy[0].bb], asw, False):
+        # value table over self.async_stderr: which kind of stderr reader is built (by a constructor or in place)
+        SR = "grep_cli::process::StderrReader"
+
+        def builds(fn_, variant, blocks=None):
+            return any(st["k"] == "assign" and st["rv"]["k"] == "agg" and st["rv"].get("adt") == SR and st["rv"].get("variant") == variant
+                       for bb_, j_, st in fn_.stmts() if blocks is None or bb_ in blocks)
+
+        def built(flag):
+            sx = Sccp(g, field_model=lambda o_, n_: I(flag) if (o_ == CRB and n_ == "async_stderr") else None).run([(0, {})])
+            out = set()
+            for v_ in ("Async", "Sync"):
+                if builds(g, v_, sx.exec_blocks) or any(c.bb in sx.exec_blocks and c.path.startswith(SR + "::") and c.path in facts.fns and
+                                                        builds(facts.fns[c.path], v_) for c in g.calls()):
+                    out.add(v_)
+            return out
+        if so and se and len(piped) >= 2 and built(1) == {"Async"} and built(0) == {"Sync"}:
             r.ok("builder", "stdout and stderr piped; async reader iff async_stderr", fn=g)
         else:
             r.bad("builder", "CommandReaderBuilder::build does not pipe both streams / select the stderr reader by the flag", fn=g,
